@@ -61,7 +61,28 @@ class Recorder:
             st["fs"][d] = fl
         c = pr["cont"][0]
         if not isinstance(c, dict):
-            c = None
+            # snapraid loads the first copy that exists
+            c = next((x for x in pr["cont"] if isinstance(x, dict)), None)
+        cs = self._cstate(c)
+        st["cf"], st["del"], st["info"] = cs["cf"], cs["del"], cs["info"]
+        st["alts"] = [(self._cstate(x) if isinstance(x, dict) else {"cf": {}, "del": {}, "info": [], "bad": x})
+                      for x in pr["cont"]]
+        for l in range(self.a.conf.np):
+            row = []
+            for cell in (pr["par"][l] if l < len(pr["par"]) else []):
+                if cell in ("JUNK", "TOOMANY"):
+                    row.append([])
+                else:
+                    row.append([{d: (self.note_val(w[d]) if d in w else "Z") for d in self.D} for w in cell])
+            st["par"].append(row)
+        st["sha"] = self.digests()
+        st["copies"] = [("ok" if isinstance(x, dict) else x) for x in pr["cont"]]
+        st["nbad"] = sum(1 for x in pr["cont"] if not isinstance(x, dict) and x != "MISSING")
+        st["copies_equal"] = all(x == pr["cont"][0] for x in pr["cont"])
+        return st
+
+    def _cstate(self, c):
+        out = {"cf": {}, "del": {}, "info": []}
         bmax = c["bmax"] if c else 0
         for d in self.D:
             cf = {}
@@ -73,26 +94,15 @@ class Recorder:
                                 "bl": [{"pos": p, "st": s, "h": self.hs(h)} for p, s, h in f["bl"]]}
                 for p, h in c["del"][d].items():
                     dl[int(p)] = self.hs(h)
-            st["cf"][d] = cf
-            st["del"][d] = dl
+            out["cf"][d] = cf
+            out["del"][d] = dl
         if c:
             for e in c["info"]:
                 if e is None:
-                    st["info"].append({"p": False, "t": 0, "bad": False, "js": False})
+                    out["info"].append({"p": False, "t": 0, "bad": False, "js": False})
                 else:
-                    st["info"].append({"p": True, "t": e["t"] - BASE_TIME, "bad": e["bad"], "js": e["js"]})
-        for l in range(self.a.conf.np):
-            row = []
-            for cell in (pr["par"][l] if l < len(pr["par"]) else []):
-                if cell in ("JUNK", "TOOMANY"):
-                    row.append([])
-                else:
-                    row.append([{d: (self.note_val(w[d]) if d in w else "Z") for d in self.D} for w in cell])
-            st["par"].append(row)
-        st["sha"] = self.digests()
-        st["copies"] = [("ok" if isinstance(x, dict) else x) for x in pr["cont"]]
-        st["copies_equal"] = all(x == pr["cont"][0] for x in pr["cont"])
-        return st
+                    out["info"].append({"p": True, "t": e["t"] - BASE_TIME, "bad": e["bad"], "js": e["js"]})
+        return out
 
     def digests(self):
         """byte-level digests for the frame conditions (C12): data trees, parity streams, content copies, and
@@ -127,7 +137,7 @@ class Recorder:
                         extra.append(rel)
             else:
                 extra.append(top)
-        return {"f": h.hexdigest()[:16], "p": ps, "c": cs, "x": ",".join(extra)}
+        return {"f": h.hexdigest()[:16], "p": ps, "c": cs, "x": sorted(extra)}
 
     def hs(self, h):
         if isinstance(h, str):
